@@ -11,10 +11,10 @@ Definition feats (l : list string) : value := VDict (map (fun f => (f, VBool tru
 Definition hello_callee : dict :=
   [("roles", VDict [("callee", VDict [("features",
       feats ["call_canceling"; "progressive_call_results"; "progressive_call_invocations";
-             "call_timeout"; "caller_identification"])])])].
+             "call_timeout"; "caller_identification"; "payload_passthru_mode"])])])].
 Definition hello_plain_callee : dict := [("roles", VDict [("callee", VDict [])])].
 Definition hello_caller : dict :=
-  [("roles", VDict [("caller", VDict [("features", feats ["progressive_call_invocations"; "call_canceling"])])])].
+  [("roles", VDict [("caller", VDict [("features", feats ["progressive_call_invocations"; "call_canceling"; "payload_passthru_mode"])])])].
 
 Definition s10 : session := mkSession 10 false hello_caller (join_details 10 false hello_caller) 0.
 Definition s11 : session := mkSession 11 false hello_callee (join_details 11 false hello_callee) 0.
@@ -154,7 +154,7 @@ Example chunk_refusal_ends_call :
     cget (d_calls dp2) (10, 9) = Some 10 /\
     pc2 = CallRefused dp3 [(10, RError c_CALL 9 [] e_no_such_procedure [] [])] /\
     gone dp3 (10, 9) (11, 1) /\
-    sync_yield dp3 11 1 [] [vnat 42] [] = (dp3, []).
+    sync_yield (lk 1 0) dp3 11 1 [] [vnat 42] [] = (dp3, []).
 Proof. split; [eexists; vm_compute; reflexivity|]. vm_compute. repeat split; reflexivity. Qed.
 
 Lemma wf_dp2 : dealer_wf (lk 1 0) dp2.
@@ -214,4 +214,31 @@ Proof.
   split; [eexists; eexists; eexists; vm_compute; repeat split; reflexivity|].
   split; [eexists; vm_compute; repeat split; reflexivity|].
   eexists; eexists; eexists; eexists; eexists; vm_compute; repeat split; reflexivity.
+Qed.
+
+(** ** Payload passthru mode (sessions 10 and 11 announced it, 12 did not) *)
+Definition ppt_opts : dict := [("ppt_scheme", vstr "mqtt"); ("ppt_serializer", vstr "cbor")].
+
+Example ppt_ex :
+    (* CALL in passthru mode to callee 11: the options are copied into the INVOCATION details *)
+    (exists d' c det, call cfg0 (lk 0 0) 5 d2s s10 7 ppt_opts "com.x" [] [] 0 = CallInvoked d' c [(11, RInvocation 1 19 det [] [])] /\
+        dget det "ppt_scheme" = Some (vstr "mqtt") /\ dget det "ppt_serializer" = Some (vstr "cbor") /\ dget det "ppt_cipher" = None) /\
+    (* ... to callee 12, which did not announce the feature: refused, nothing recorded *)
+    (exists d', call cfg0 (lk 1 0) 6 d3 s10 8 ppt_opts "com.x" [] [] 0 =
+                CallRefused d' [(10, RError c_CALL 8 [] e_feature_not_supported [] [])] /\ cget (d_calls d') (10, 8) = None) /\
+    (* YIELD in passthru mode by 11 for caller 10: delivered with the options in the details *)
+    snd (sync_yield (lk 1 0) d3 11 1 ppt_opts [vnat 1] []) =
+      [(10, RResult 7 [("ppt_scheme", vstr "mqtt"); ("ppt_serializer", vstr "cbor")] [vnat 1] [])] /\
+    (* YIELD in passthru mode by 12 (feature not announced): the call is ended with ERROR(CALL, 8), 12 is aborted *)
+    sync_yield (lk 1 1) d5 12 1 ppt_opts [vnat 1] [] =
+      (fst (sync_yield (lk 1 1) d5 12 1 ppt_opts [vnat 1] []),
+       [(10, RError c_CALL 8 ppt_error_details e_feature_not_supported [] []);
+        (12, RAbort [("message", vstr "<text>")] e_protocol_violation)]) /\
+    gone (fst (sync_yield (lk 1 1) d5 12 1 ppt_opts [vnat 1] [])) (10, 8) (12, 1) /\
+    yield_aborts (lk 1 1) d5 12 1 ppt_opts = true /\
+    has_ppt (lk 1 1) 12 "callee" = false /\ ppt_active ppt_opts = true.
+Proof.
+  split; [eexists; eexists; eexists; vm_compute; repeat split; reflexivity|].
+  split; [eexists; vm_compute; repeat split; reflexivity|].
+  vm_compute. repeat split; reflexivity.
 Qed.
